@@ -940,6 +940,11 @@ func (m *Machine) makeSlice(fr *frame, i *ssa.MakeSlice) Val {
 		}
 		t := m.ctx.Resize(x.t, 64, x.sg)
 		if m.branch(m.ctx.Not(m.ctx.Cmp(opUle, t, m.ctx.BV(64, uint64(limit))))) {
+			// prefer a witness the native runtime rejects outright (so that the
+			// replay panics instead of allocating gigabytes)
+			if huge := m.ctx.Not(m.ctx.Cmp(opUle, t, m.ctx.BV(64, 1<<48))); !m.replaying() && m.feasible(huge) {
+				m.assume(huge)
+			}
 			m.tpanic("alloc", fmt.Sprintf("makeslice: input-driven size above the allocation cap %d (or negative)", limit), i.Pos())
 		}
 		return int(m.concretize(t, "make size"))
